@@ -142,6 +142,21 @@ fn families(quick: bool) -> Vec<LmFamily> {
         offsets: vec![0.0],
         named: true,
     });
+    // satisfy models that still carry objective coefficients and an offset: the reported value must be the
+    // objective function at the returned point
+    v.push(LmFamily {
+        name: "F6c-satisfy-with-costs",
+        n: 2,
+        m: 1,
+        doms: vec![Dom::NonNeg, Dom::Free, Dom::Bool, Dom::Int(-1, 2), Dom::Real(-2.0, 3.0)],
+        coefs: vec![-1.0, 0.0, 1.0],
+        rhss: vec![-1.0, 1.0],
+        rels: vec![Rel::Le, Rel::Ge, Rel::Eq],
+        objs: vec![-2.0, 0.0, 1.0],
+        senses: vec![Sense::Satisfy],
+        offsets: vec![0.0, 2.5],
+        named: true,
+    });
     v.push(LmFamily {
         name: "F6-satisfy",
         n: 2,
